@@ -66,6 +66,7 @@ type STypeExpr struct {
 	Name string // for "name": possibly qualified "pkg.T"
 	Elem *STypeExpr
 	Key  *STypeExpr
+	Args []*STypeExpr // for "func": parameter types (Elem is the result)
 }
 
 func (t *STypeExpr) String() string {
@@ -84,6 +85,12 @@ func (t *STypeExpr) String() string {
 		return "array[" + t.Key.String() + "]" + t.Elem.String()
 	case "goarray":
 		return "[" + t.Name + "]" + t.Elem.String()
+	case "func":
+		var as []string
+		for _, a := range t.Args {
+			as = append(as, a.String())
+		}
+		return "func(" + strings.Join(as, ", ") + ") " + t.Elem.String()
 	}
 	return "?"
 }
@@ -387,6 +394,19 @@ func (p *sparser) parseType() *STypeExpr {
 		p.expectOp("]")
 		v := p.parseType()
 		return &STypeExpr{Kind: t.text, Key: k, Elem: v}
+	}
+	if t.text == "func" {
+		p.expectOp("(")
+		ft := &STypeExpr{Kind: "func"}
+		for !p.isOp(")") {
+			ft.Args = append(ft.Args, p.parseType())
+			if p.isOp(",") {
+				p.next()
+			}
+		}
+		p.expectOp(")")
+		ft.Elem = p.parseType()
+		return ft
 	}
 	if t.text == "set" {
 		p.expectOp("[")
